@@ -22,8 +22,17 @@ type fataler interface{ Fatalf(string, ...any) }
 // decide runs the scenario and applies the C02 oracle.
 func decide(t fataler, s *graph.Scenario, tag string) {
 	in := s.Instantiate()
-	obs := &graph.ObsPP{Tag: "c02", Log: in.Log}
-	in.Extra = append(in.Extra, obs)
+	// an observing (never substituting) post-processor; which ordering class it is in follows from the scenario:
+	// unordered (sorts last), ordered or priority-ordered (sorts in front of the built-in processors)
+	base := graph.ObsPP{Tag: "c02", Log: in.Log}
+	switch (s.OrdSeed + uint64(len(s.Nodes)) + uint64(len(s.RegPerm))) % 3 {
+	case 0:
+		in.Extra = append(in.Extra, &base)
+	case 1:
+		in.Extra = append(in.Extra, &graph.OrderedObsPP{ObsPP: base})
+	default:
+		in.Extra = append(in.Extra, &graph.PriorityObsPP{ObsPP: base})
+	}
 	in.Run()
 	desc := tag + " " + s.Shape()
 	if in.Out.Panic != nil {
@@ -109,10 +118,13 @@ func TestCycles(t *testing.T) {
 				continue
 			}
 			c := g.Find(in.Comps[i])
-			sat := true
+			sat, satBC := true, false
 			for _, p := range g.Points[c] {
 				if (p.Field.Name == "QS" || p.Field.Name == "Nx") && !p.Satisfiable() {
 					sat = false
+				}
+				if p.Field.Name == "BC" && p.Satisfiable() {
+					satBC = true
 				}
 			}
 			k := rapid.IntRange(0, 9).Draw(t, "req")
@@ -122,6 +134,8 @@ func TestCycles(t *testing.T) {
 					s.Nodes[i].Variant = 'F' // required points declared inside embedded structs
 				case k == 1 || k == 2:
 					s.Nodes[i].Variant = 'X' // the node is also a (pass-through) component post-processor
+				case satBC || k == 0:
+					s.Nodes[i].Variant = 'K' // also a required by-name point whose name comes out of a placeholder
 				default:
 					s.Nodes[i].Variant = 'R'
 				}
